@@ -14,7 +14,7 @@ void h_header(void)
   uint64_t in_len; __CPROVER_assume(in_len <= 0xFFFFFFFFul);
   ct.p = 0; ct.n = in_len; ct.cap = in_len;
   buf.p = frame; buf.n = 20; buf.cap = 20;
-  uint32_t l = network__SessionManager__send__slice_frame_header(&ct, &buf);
+  uint32_t l = network__SessionManager__send__slice_frame_header(&buf, &ct);
   __CPROVER_assert(frame[12] == (uint8_t)(in_len >> 24) && frame[13] == (uint8_t)(in_len >> 16) && frame[14] == (uint8_t)(in_len >> 8) && frame[15] == (uint8_t)in_len, "the length field is the big-endian 32-bit ciphertext length, right after the 12-byte nonce");
   arr_u8_4 field = {{frame[12], frame[13], frame[14], frame[15]}};
   uint32_t seen = network__SessionManager__receive_loop__slice_frame_length(&field);
@@ -29,7 +29,7 @@ void h_body(void)
   uint64_t in_len; __CPROVER_assume(in_len <= B);
   ct.p = text; ct.n = in_len; ct.cap = B;
   buf.p = frame; buf.n = 16 + in_len; buf.cap = 16 + B;
-  (void)network__SessionManager__send__slice_frame_fill(&ct, &buf);
+  (void)network__SessionManager__send__slice_frame_fill(&buf, &ct);
   uint64_t g; __CPROVER_assume(g < in_len);
   __CPROVER_assert(frame[16 + g] == text[g], "the frame carries the ciphertext byte-for-byte, in order, after the length field");
   uint64_t h; __CPROVER_assume(h < 12);
